@@ -25,8 +25,8 @@ RULE = ('cases = default sets (plain, renamed one-to-one, one deprecated name sp
         'backslashes, non-ASCII in values; registered / deprecated / unknown names; alias entries old: rule:new; excluded: '
         'files defining both a deprecated name and a successor, or referencing a deprecated name via rule:) x tool '
         '(upgrade YAML/JSON in and out; convert JSON->YAML; policy-generator and list-redundant with a main file plus '
-        'directory overrides, each name in at most one file, file rules spelled as textual variants of the default or as '
-        'different rules, no override under a deprecated name). Decisions compared under all 16 subsets of 4 roles and 2 '
+        'directory overrides, each name in at most one file, file rules spelled as textual variants of the default, as near misses (one operand of the top-level and/or dropped or '
+        'added), as always-allow ("", "@", []) or as different rules, no override under a deprecated name). Decisions compared under all 16 subsets of 4 roles and 2 '
         'targets. Non-trivial = the file overrides at least one registered or deprecated name; distinct = distinct (defaults, files, tool).')
 ASSUMPTIONS = ['default configuration (enforce_new_defaults and enforce_scope at their defaults), no scope types: "request scope matching"',
                'redundant rules are read from list-redundant output lines of the form "name": ... (pinned by the repository\'s ListRedundantTestCase)',
@@ -71,6 +71,36 @@ def gen_list(rnd):
         else:
             out.append([rnd.choice(['role:a', 'role:b', 'role:c', '@', '!', "'x':%(k)s"]) for _ in range(rnd.randint(1, 3))])
     return out
+
+
+def near_miss(rnd, text):
+    """A DIFFERENT rule that looks almost like the default: one operand of the top-level and/or dropped or added."""
+    t = text.strip()
+    if t.startswith('(') and t.endswith(')'):
+        t = t[1:-1]
+    for op in (' or ', ' and '):
+        depth, parts, cur = 0, [], ''
+        i = 0
+        while i < len(t):
+            if t[i] == '(':
+                depth += 1
+            elif t[i] == ')':
+                depth -= 1
+            if depth == 0 and t.startswith(op, i):
+                parts.append(cur)
+                cur = ''
+                i += len(op)
+                continue
+            cur += t[i]
+            i += 1
+        parts.append(cur)
+        if len(parts) > 1:
+            if rnd.random() < 0.5:
+                parts = parts[:-1]
+            else:
+                parts = parts + [rnd.choice(['role:d', 'role:c', '!'])]
+            return op.join(parts) if len(parts) > 1 else parts[0]
+    return '%s or role:d' % text if text else 'role:d'
 
 
 def variant(rnd, text):
@@ -135,7 +165,9 @@ def gen_file(rnd, spec, allow_deprecated=True, allow_lists=True, odd=0.15, varia
             r = rnd.random()
             dt = default_text(spec, nme)
             if dt is not None and rnd.random() < variants:
-                f[nme] = variant(rnd, dt)
+                f[nme] = variant(rnd, dt) if rnd.random() < 0.6 else near_miss(rnd, dt)
+            elif r > 0.92:
+                f[nme] = rnd.choice(['', '@', '!', []])
             elif allow_lists and r < 0.25:
                 f[nme] = gen_list(rnd)
             else:
